@@ -43,7 +43,8 @@ def gen_case(rnd, tier):
             "points": pts, "allsp": allsp}
     if rnd.random() < 0.5:
         # refused create_reaction calls interleaved with the valid ones (incremental and icd routes)
-        case["poison"] = [[rnd.randint(0, len(rx) - 1), rnd.choice(["hill_s1", "prophill_d", "ma_species", "hill_delay"])] for _ in range(rnd.randint(1, 2))]
+        case["poison"] = [[rnd.randint(0, len(rx) - 1), rnd.choice(["hill_s1", "prophill_d", "ma_species", "hill_delay", "delay_param_species_name", "new_species_bad_delay", "unknown_delay_type"])]
+                          for _ in range(rnd.randint(1, 2))]
     named = sorted(params)
     if named and rnd.random() < 0.5:
         case["missing"] = rnd.choice(named)
@@ -67,11 +68,11 @@ def run_case(case):
     for r, s_, sd_ in zip(case["reactions"], S, Sd):
         if (max(Counter(r["reactants"]).values() or [0]) > 1 or set(r["reactants"]) & set(r["products"]) or r.get("delay")):
             nontrivial = True
-    routes = ["ctor", "implicit", "incremental", "icd"]
+    routes = ["ctor", "implicit", "incremental", "icd", "incremental_implicit"]
     for pi, perm in enumerate(case["perms"]):
-        route = routes[pi % 4]
+        route = routes[pi % 5]
         sp = dict(case)
-        if route == "implicit":
+        if route in ("implicit", "incremental_implicit"):
             # species that occur as reactants/products are declared by the reactions themselves; species that occur
             # only inside a rate law have to be declared (bioscrape refuses them otherwise, which is a legal rejection)
             inrx = set(ref.all_species({"species": [], "reactions": case["reactions"]}))
@@ -86,7 +87,7 @@ def run_case(case):
             sp["species"] = list(perm)
         try:
             M = specmod.build_model(sp, "ctor" if route == "implicit" else route)
-            if sp.get("poison") and route in ("incremental", "icd"):
+            if sp.get("poison") and route in ("incremental", "icd", "incremental_implicit"):
                 C["models_built_after_refused_calls"] += 1
         except specmod.PoisonAccepted:
             C["poison_accepted"] += 1
@@ -96,10 +97,19 @@ def run_case(case):
             continue
         C["orders_built"] += 1
         idx = M.get_species2index()
-        if set(idx) != set(case["allsp"]):
+        # a refused call may leave the species it mentioned behind (names zz_*): they take part in nothing
+        junk = sorted(s_ for s_ in idx if s_.startswith("zz_"))
+        if set(idx) - set(junk) != set(case["allsp"]):
             viol.append({"key": "C03/species-set", "msg": "species set %s != %s" % (sorted(idx), sorted(case["allsp"]))})
             continue
+        if sorted(idx.values()) != list(range(len(idx))):
+            viol.append({"key": "C03/species-index-collision", "msg": "route %s: species indices are not a bijection onto 0..n-1: %r" % (route, dict(idx))})
+            continue
         U, Ud = M.py_get_update_array(), M.py_get_delay_update_array()
+        for s_ in junk:
+            if np.any(U[idx[s_]] != 0) or np.any(Ud[idx[s_]] != 0):
+                viol.append({"key": "C03/immediate-stoichiometry", "msg": "route %s: species %s, mentioned only by a refused call, has stoichiometry %r / %r" % (
+                    route, s_, list(U[idx[s_]]), list(Ud[idx[s_]]))})
         if U.shape != (len(idx), len(case["reactions"])) or Ud.shape != U.shape:
             viol.append({"key": "C03/matrix-shape", "msg": "update array shape %s for %d species x %d reactions" % (U.shape, len(idx), len(case["reactions"]))})
             continue
